@@ -263,8 +263,18 @@ def analyse(ctx, w, kind, tests, trials, ints, c, o):
         if o is not None:
             o.fail('kernels:' + name, 'TerminalExpr returned %r instead of a tuple of kernels for %s' % (ks, name))
         return None
-    ft = list(m['_unpack_functions'](tests)) if kind != 'functional' else []
-    fu = list(m['_unpack_functions'](trials)) if kind == 'bilinear' else []
+    def unpack(fs):
+        # the scalar components in DECLARATION order, computed here and not with the implementation's
+        # own helper (seeded change C06-5 re-ordered them there, and the oracle followed)
+        out = []
+        for f in fs:
+            if isinstance(f, m['VectorFunction']):
+                out += [f[i] for i in range(w.dim)]
+            else:
+                out.append(f)
+        return out
+    ft = unpack(tests) if kind != 'functional' else []
+    fu = unpack(trials) if kind == 'bilinear' else []
     # expected regions and region integrands, computed independently
     exp = {}
     n_iface = 0
@@ -443,6 +453,10 @@ def correspondence(ctx):
 def oracle(ctx, factor, seeds):
     o = Oracle()
     run(ctx, (500 if ctx.thorough else 80) * factor, None, o)
+    # several interfaces at once (three-patch chain): the one-sided pieces of EVERY interface reach
+    # their faces (seeded change C06-6; the metamorphic check is shared with C07)
+    from harness.props import c07
+    c07.multi_interface_cases(ctx, o, (30 if ctx.thorough else 6) * factor)
     return o
 
 
